@@ -5,10 +5,11 @@ of Spec/Envelope.lean.
 
 Import note: Lemmas/Name.lean and Lemmas/NoPanic.lean both declare
 `Dns.nameLoop_pos_le` and `Dns.Name.parse_pos_le`, so the two modules cannot be
-imported together. C05 needs NoPanic (through Props/C01); the three facts about
+imported together. C05 needs NoPanic (through Props/C01); the two facts about
 `nameLoop` that it needs from Lemmas/Name.lean (soundness for `Decodes`, the
-cursor is the `InPlaceEnd`, the cursor advances) are therefore re-proved here in
-the namespace `Dns.Framing`, with the same proofs.
+cursor is the `InPlaceEnd`) are therefore re-proved here in the namespace
+`Dns.Framing`, with the same proofs. `Name.parse_pos_le` below is the NoPanic
+one (`p ≤ d.length`).
 -/
 import SimpleDnsModel.Lemmas.NoPanic
 import SimpleDnsModel.Spec.NameDecode
@@ -57,7 +58,7 @@ theorem take_append_take {d tail : Bytes} {k : Nat} (hk : k ≤ d.length) :
     (d.take k ++ tail).take k = d.take k := by
   rw [List.take_append_of_le_length (by simp; omega), List.take_take, Nat.min_self]
 
-/-! ### `Name.parse`: soundness, cursor, progress (as in Lemmas/Name.lean) -/
+/-! ### `Name.parse`: soundness and cursor (as in Lemmas/Name.lean) -/
 
 theorem nameLoop_sound (d : Bytes) (s : NS) (n : Name) (p : Nat)
     (h : nameLoop d s = .ok (n, p)) :
@@ -174,7 +175,7 @@ theorem inPlaceEnd_of_skipName {d : Bytes} {fuel off e : Nat}
 
 theorem skipName_of_parse {d : Bytes} {off : Nat} {n : Name} {e : Nat}
     (h : Name.parse d off = .ok (n, e)) : Spec.skipName d (d.length + 1) off = some e :=
-  skipName_of_inPlaceEnd (name_cursor h) (Name.parse_pos_le h) _ (by omega)
+  skipName_of_inPlaceEnd (name_cursor h) (Name.parse_end_le h) _ (by omega)
 
 /-! ### fixed-width fields -/
 
